@@ -23,6 +23,14 @@ PROPS["C13"] = {
                     "x/crypto/sha3 is correct"],
     "units": [
         {
+            "pkg": "internal/strobe", "configs": B3,
+            "tests": {
+                "TestC13StrobeOps": T(20000, 1500000),
+                "TestC13Keccak": T(20000, 2000000),
+                "TestC13KeccakBits": LIST(),
+            },
+        },
+        {
             "pkg": "primitives/merlin", "configs": B3,
             "tests": {
                 "TestC13History": T(30000, 2000000),
